@@ -24,7 +24,7 @@ RULE = (
     "violation. Non-trivial: a parameterised macro used >= 2 times with different actuals, or >= 2 macro kinds combined; distinct by canonical hash."
 )
 ASSUMPTIONS = ["only the supported use forms are generated (string macro as key with an operand list, formals in key position, item macro with sibling times are not)", "macro names pairwise not substrings of one another"]
-FLOORS = {"kind=nested-pass-through": 0.02, "kind=independent-uses": 0.02, "has-deref": 0.08, "kind=item": 0.1, "kind=operand": 0.1, "kind=substring": 0.1, "kind=times-body": 0.012, "kind=param": 0.15, "extra-files": 0.3, "multi-use": 0.3}
+FLOORS = {"kind=nested-pass-through": 0.02, "kind=independent-uses": 0.02, "has-deref": 0.08, "kind=item": 0.1, "kind=operand": 0.1, "kind=substring": 0.1, "kind=times-body": 0.012, "kind=key-substring": 0.04, "kind=key-whole": 0.04, "kind=chain": 0.01, "kind=param": 0.15, "extra-files": 0.3, "multi-use": 0.3}
 
 
 def budget(tier):
